@@ -244,6 +244,15 @@ func oracle(c *Case) error {
 			extra = append(extra, model.And(ands...))
 		}
 	}
+	if len(rows) > 50000 && len(cols) > 0 {
+		last := cols[len(cols)-1]
+		vals := d.Values(last)
+		for i := 0; i < len(vals) && i < 8; i++ {
+			for j := i + 1; j < len(vals) && j < 8; j++ {
+				extra = append(extra, model.And(model.Eq(last, vals[i]), model.Eq(last, vals[j])))
+			}
+		}
+	}
 	perr := fix.ProbeAll(idx, d, fix.ProbeOpts{Extra: extra, ExtraGB: gbs})
 	fix.Safe(idx.Close)
 	if perr != nil {
@@ -472,8 +481,21 @@ func replay(cf *evid.CaseFile) error {
 	return oracle(&c)
 }
 
+// bigCSV: a CSV with very many records and few distinct values per column (the
+// stored bitmaps are tens of KiB each), ingested in both modes.
+func bigCSV(t *testing.T, n int) {
+	for _, big := range []bool{false, true} {
+		c := &Case{Header: []string{"Aa", "Cc"}, Big: big, FinalNL: true}
+		for i := 0; i < n; i++ {
+			c.Records = append(c.Records, []string{fmt.Sprintf("v%d", i%3), fmt.Sprintf("w%d", i%7)})
+		}
+		run(t, c)
+	}
+}
+
 func TestQuick(t *testing.T) {
 	fix.Pinned(t, prop, replay)
+	bigCSV(t, 200000)
 	fix.Check(t, "create", 240, func(rt *rapid.T) { run(rt, drawCase(rt, 60)) })
 	fix.Check(t, "race", 25, func(rt *rapid.T) { runRace(rt, drawRace(rt)) })
 }
@@ -481,6 +503,8 @@ func TestQuick(t *testing.T) {
 func TestThorough(t *testing.T) {
 	if shard, _ := evid.Shard(); shard == 0 {
 		fix.Pinned(t, prop, replay)
+		bigCSV(t, 200000)
+		bigCSV(t, 300001)
 	}
 	fix.Check(t, "create", 4000, func(rt *rapid.T) { run(rt, drawCase(rt, 300)) })
 	fix.Check(t, "race", 150, func(rt *rapid.T) { runRace(rt, drawRace(rt)) })
